@@ -42,7 +42,7 @@ SPEC = {
         "pre-emption point before every engine call; non-trivial = at least one pre-emption inside an operation while "
         ">=2 sessions were live; distinct = hash of (op kinds per session, sequence of (session, engine-call kind) pairs)"
     ),
-    "bounds": "k in 2..3 sessions, 1-5 ops per session after connect, strategies random/pct(1-3)/targeted/serial/stall",
+    "bounds": "k in 2..3 sessions (thorough: up to 4, then at most 3 ops each), 1-5 ops per session after connect, strategies random/pct(1-3)/targeted/serial/stall",
     "components_real": ["fakesnow/*", "sqlglot", "duckdb engine (in-memory)", "snowflake.connector error classes"],
     "components_stubbed": ["thread scheduling (baton over real threads)", "locks created by fakesnow code (SimLock)"],
     "assumptions": [
@@ -153,7 +153,7 @@ def run_keyed(case: dict[str, Any]) -> dict[str, Any]:
 def gen(rng: Any, prop: str, tier: str) -> dict[str, Any]:
     if rng.random() < 0.1:
         return gen_keyed(rng)
-    k = rng.choice([2, 2, 2, 3])
+    k = rng.choice([2, 2, 2, 3] + ([3, 4] if tier == "thorough" else []))  # deeper bound in the thorough tier
     # known-hazard switches (DESIGN.md section 4): off in ~85 % of runs so that model and system stay in lock-step
     hazards = {"half_meta": rng.random() < 0.15, "half_merge": rng.random() < 0.15}
     own_schema = rng.random() < 0.5
@@ -190,7 +190,7 @@ def gen(rng: Any, prop: str, tier: str) -> dict[str, Any]:
         have_own = False
         mine: list[int] = []
         var_set = False
-        for _ in range(rng.randint(1, 4)):
+        for _ in range(rng.randint(1, 4 if k < 4 else 3)):
             kind = rng.choices(kinds, weights)[0]
             if kind in ("ins_shared", "read_shared", "merge_shared") and not have_shared:
                 ops.append({"s": sid, "k": "exec", "tag": "create_shared",
